@@ -128,6 +128,9 @@ func (fg *FG) call0(st *State, cc *ssa.CallCommon, in ssa.Instruction, resultOf 
 			if u, ok := cc.Value.(*ssa.UnOp); ok && u.Op == token.MUL {
 				if g, ok := u.X.(*ssa.Global); ok {
 					callee = fg.g.constFuncVar(g)
+					if callee != nil {
+						fg.usedAssumed[fmt.Sprintf("funcvar:%s = %s", g.RelString(nil), callee.RelString(nil))] = true
+					}
 				}
 			}
 		}
@@ -1252,6 +1255,17 @@ func (fg *FG) goStmt(st *State, x *ssa.Go) {
 		fg.g.noteAssumption("goroutine " + fg.g.keyOf(callee) + " started by " + fg.name + " has no contract; it is not followed")
 		return
 	}
+	defer func() {
+		// a "spawn K" model records the start in ghost state of the spawning function
+		if sc := fg.g.ct.C["spawn:"+fg.g.keyOf(callee)]; sc != nil {
+			var sargs []Val
+			for _, a := range cc.Args {
+				sargs = append(sargs, fg.val(a))
+			}
+			fg.usedAssumed[sc.Key] = true
+			fg.applyContract(st, sc, callee, cc.Signature(), sargs, x, nil)
+		}
+	}()
 	var args []Val
 	for _, a := range cc.Args {
 		args = append(args, fg.val(a))
